@@ -29,7 +29,7 @@ PROPS = {
                   "renormalised linear fixed point (HMM.tla), model-checked by TLC on dyadic tables; implementation outputs "
                   "for all observation sequences validated by TLC against the enumerated posterior, Hoeffding clause in "
                   "integer arithmetic",
-        text="Configurations N in {2,3} (thorough: {2,3,4}) x adjacency truncations {0,1} x several variances, every observation "
+        text="Configurations N in {2,3} (thorough: N <= 5) x adjacency truncations {0,1} (thorough also 2) x several variances, every observation "
              "sequence of length <= 3 (thorough <= 4): exp(estimate_logpdf(z)) = W(z)/sum W for every latent sequence z (2 %), "
              "exp(data_logpdf) = sum_z W(z), random_weighted's weight = estimate_logpdf of the returned sequence, and the empirical "
              "distribution of 4096 random_weighted / forward_filtering_backward_sampling draws lies within the Hoeffding band "
@@ -318,9 +318,9 @@ def run(prop_id, tier, seed, replay=None):
     for c in cases[:: max(1, len(cases) // 3)]:
         rep.sample({k: c[k] for k in ("cfg", "obs", "post_st", "data_st", "rw_st", "ffbs_st", "data", "ffbs_counts")} |
                    {"post_first3": c["post"][:3], "A_row1": c["A"][0]})
-    rep.exhaustive = True
+    rep.exhaustive = False      # sequences are enumerated, configurations and samples are not
     rep.extra.update(
-        exhaustive_scope=f"every observation sequence of length <= {maxT} for each listed configuration; every latent sequence",
+        enumerated_scope=f"every observation sequence of length <= {maxT} for each listed configuration; every latent sequence",
         configurations=[list(c) for c in cfgs], samples_per_case=ns, operations_ran=ran,
         exceptions={k: v for k, v in errs_seen.items()},
         trace_summary=summ[-1],
